@@ -62,7 +62,57 @@ func pseudoFor(root types.Object, field *types.Var) *types.Var {
 	}
 	v := types.NewVar(root.Pos(), root.Pkg(), root.Name()+"."+field.Name(), field.Type())
 	pseudoVars[k] = v
+	pseudoOf[v] = k
 	return v
+}
+
+var pseudoOf = map[*types.Var]pseudoKey{}
+
+// pseudoFieldInit: the value a field variable was given by the one literal that built its struct, when no field of
+// that struct type is ever assigned afterwards (fieldsNeverAssigned); nil otherwise.
+func pseudoFieldInit(info *types.Info, v *types.Var) ast.Expr {
+	k, ok := pseudoOf[v]
+	if !ok || gProg == nil {
+		return nil
+	}
+	root, ok := k.root.(*types.Var)
+	if !ok {
+		return nil
+	}
+	fd := gProg.enclosingFuncDecl(root.Pos())
+	if fd == nil || fd.Body == nil {
+		return nil
+	}
+	def := soleDefinition(info, fd, root)
+	if def == nil {
+		return nil
+	}
+	def = ast.Unparen(def)
+	if u, ok := def.(*ast.UnaryExpr); ok && u.Op == token.AND {
+		def = ast.Unparen(u.X)
+	}
+	cl, ok := def.(*ast.CompositeLit)
+	if !ok || !fieldsNeverAssigned(namedStruct(info.TypeOf(cl))) {
+		return nil
+	}
+	for _, el := range cl.Elts {
+		if kv, ok := el.(*ast.KeyValueExpr); ok {
+			if id, ok := kv.Key.(*ast.Ident); ok && info.ObjectOf(id) == types.Object(k.field) {
+				return kv.Value
+			}
+		}
+	}
+	return nil
+}
+
+func namedStruct(t types.Type) types.Type {
+	if t == nil {
+		return nil
+	}
+	if p, ok := t.(*types.Pointer); ok {
+		t = p.Elem()
+	}
+	return t
 }
 
 // ownedLiteral: `x := &T{…}` / `x := T{…}` / `x := new(T)` where x is the owned root itself: the struct type and the
@@ -131,8 +181,8 @@ func ownedStructRoot(info *types.Info, o types.Object) types.Object {
 			}
 		}
 		if arg != nil {
-			if _, isPtr := v.Type().Underlying().(*types.Pointer); !isPtr {
-				return nil // a struct handed over by value is a copy
+			if _, isPtr := v.Type().Underlying().(*types.Pointer); !isPtr && !fieldsNeverAssigned(v.Type()) {
+				return nil // a struct handed over by value is a copy (the same as the original only while neither changes)
 			}
 			o = objOfIdentPlain(info, arg)
 			continue
@@ -165,7 +215,7 @@ func ownedStructRoot(info *types.Info, o types.Object) types.Object {
 		}
 		switch d := ast.Unparen(def).(type) {
 		case *ast.Ident:
-			if _, isPtr := v.Type().Underlying().(*types.Pointer); !isPtr {
+			if _, isPtr := v.Type().Underlying().(*types.Pointer); !isPtr && !fieldsNeverAssigned(v.Type()) {
 				return nil // y := x of a struct value is a copy
 			}
 			o = info.ObjectOf(d)
@@ -371,4 +421,59 @@ func onlyFreshAssignments(info *types.Info, fd *ast.FuncDecl, v *types.Var) bool
 		return true
 	})
 	return ok
+}
+
+var neverAssignedCache = map[*types.Named]bool{}
+
+// fieldsNeverAssigned: t is a struct type of the module none of whose fields is ever the target of an assignment (or
+// ++/--, or has its address taken) anywhere in its package: its values are built by literals only, so a copy and its
+// original hold the same fields for ever.
+func fieldsNeverAssigned(t types.Type) bool {
+	if t == nil {
+		return false
+	}
+	n, ok := t.(*types.Named)
+	if !ok || gProg == nil || n.Obj().Pkg() == nil || !isModuleStruct(t) {
+		return false
+	}
+	if r, ok := neverAssignedCache[n]; ok {
+		return r
+	}
+	pk := gProg.Pkgs[n.Obj().Pkg().Path()]
+	st, _ := n.Underlying().(*types.Struct)
+	if pk == nil || st == nil {
+		return false
+	}
+	fields := map[types.Object]bool{}
+	for i := 0; i < st.NumFields(); i++ {
+		fields[st.Field(i)] = true
+	}
+	res := true
+	isField := func(e ast.Expr) bool {
+		se, ok := ast.Unparen(e).(*ast.SelectorExpr)
+		return ok && fields[pk.TypesInfo.ObjectOf(se.Sel)]
+	}
+	for _, f := range pk.Syntax {
+		ast.Inspect(f, func(m ast.Node) bool {
+			switch x := m.(type) {
+			case *ast.AssignStmt:
+				for _, l := range x.Lhs {
+					if isField(l) {
+						res = false
+					}
+				}
+			case *ast.IncDecStmt:
+				if isField(x.X) {
+					res = false
+				}
+			case *ast.UnaryExpr:
+				if x.Op == token.AND && isField(x.X) {
+					res = false
+				}
+			}
+			return res
+		})
+	}
+	neverAssignedCache[n] = res
+	return res
 }
